@@ -296,6 +296,9 @@ func handleHotRestart(s *Session, hdr header, buf []byte) (int, bool, error) {
 	}
 	epochID := binary.BigEndian.Uint64(buf[:epochIDLen])
 	s.logger.warnf("%s [epoch:%d] receive hot restart", s.sessionName(), epochID)
+	if s.manager == nil {
+		return headerSize + epochIDLen, false, ErrInvalidMsgType
+	}
 
 	s.dispatcher.post(func() {
 		s.manager.handleEvent(typeHotRestart, &sessionManagerHotRestartParams{epoch: epochID, session: s})
@@ -310,6 +313,9 @@ func handleHotRestartAck(s *Session, hdr header, buf []byte) (int, bool, error) 
 	}
 	epochID := binary.BigEndian.Uint64(buf[:epochIDLen])
 	s.logger.warnf("%s [epoch:%d] receive hot restart ack", s.name, epochID)
+	if s.listener == nil {
+		return headerSize + epochIDLen, false, ErrInvalidMsgType
+	}
 
 	s.listener.mu.Lock()
 	defer s.listener.mu.Unlock()
